@@ -21,7 +21,7 @@ RandEntries(c, body, n) ==
 RandOpt(c) ==
   LET r == RandomElement(1..4) IN
   CASE c.kind = "leaf" ->
-         IF r = 1 THEN {} ELSE IF c.typ = "empty" THEN {D(c.name, << >>, {})}
+         IF r = 1 THEN {} ELSE IF IsEmptyType(c.typ) THEN {D(c.name, << >>, {})}
          ELSE {D(c.name, <<IF r = 2 THEN "2" ELSE "1">>, {})}
     [] c.kind = "leaflist" -> IF r = 1 THEN {} ELSE {D(c.name, LLVals(r - 1), {})}
     [] c.kind = "container" ->
